@@ -985,6 +985,13 @@ class UnicodeDammit:
         """
         if not self.is_html:
             return None
+        if self.detector.declared_encoding is None:
+            # The detector only looks for a declaration once the
+            # encodings of higher precedence have failed; if one of
+            # them worked, look now.
+            self.detector.declared_encoding = self.detector.find_declared_encoding(
+                self.detector.markup, self.is_html
+            )
         return self.detector.declared_encoding
 
     def find_codec(self, charset: _Encoding) -> Optional[str]:
